@@ -100,7 +100,7 @@ Lemma boot_alone_success c fs :
 Proof.
   intros Hok Hm. rewrite boot_alone_core.
   destruct (boot_core _ _ _ _ _ _) as [[dest ds] r] eqn:E. cbn [o_result o_datagrams o_dest]. intros Hr. subst r.
-  destruct (boot_core_inv _ _ _ _ _ _ _ _ _ E) as (f1 & packed & H1 & H2 & H3 & Hp & Hlt).
+  destruct (boot_core_inv _ _ _ _ _ _ _ _ _ E) as (f1 & packed & H1 & H2 & H3 & Hp & Hlt & _).
   destruct (pack_struct_bytes _ _ H3) as [Hpk _].
   pose proof (expected_image_len (c_image c) packed Hp) as Hlen.
   pose proof (len_nonneg (c_image c)) as Hi.
@@ -318,8 +318,18 @@ Lemma boot_alone_too_large c fs :
 Proof.
   intros H512 Hbig. rewrite boot_alone_core.
   destruct (boot_core _ _ _ _ _ _) as [[dest ds] r] eqn:E. cbn [o_result]. intros Hr. subst r.
-  destruct (boot_core_inv _ _ _ _ _ _ _ _ _ E) as (f1 & packed & _ & _ & _ & Hp & Hlt).
+  destruct (boot_core_inv _ _ _ _ _ _ _ _ _ E) as (f1 & packed & _ & _ & _ & Hp & Hlt & _).
   rewrite expected_image_same_len in Hlt by assumption. lia.
+Qed.
+
+(* an image that is not a whole number of words: AssertionError in boot_packet, nothing is returned *)
+Lemma boot_alone_unaligned c fs :
+  512 <= len (c_image c) -> len (c_image c) mod 4 <> 0 -> o_result (boot_alone c) <> Ok fs.
+Proof.
+  intros H512 Hm. rewrite boot_alone_core.
+  destruct (boot_core _ _ _ _ _ _) as [[dest ds] r] eqn:E. cbn [o_result]. intros Hr. subst r.
+  destruct (boot_core_inv _ _ _ _ _ _ _ _ _ E) as (f1 & packed & _ & _ & _ & Hp & _ & Hm4).
+  rewrite expected_image_same_len in Hm4 by assumption. contradiction.
 Qed.
 
 Lemma boot_alone_terminates c : o_result (boot_alone c) <> OutOfFuel.
@@ -346,7 +356,7 @@ Proof. vm_compute. repeat split. Qed.
 Lemma orig_history_leak : exists earlier c, boot_orig_after earlier c <> boot_orig_alone c.
 Proof.
   exists [leak_first], leak_second. intros H.
-  destruct orig_leak_witness as (_ & _ & H3 & H0 & _). rewrite H in H3. rewrite H0 in H3. discriminate.
+  destruct orig_leak_witness as (_ & _ & H3 & H0 & _). rewrite H in H3. rewrite H0 in H3. clear H. discriminate H3.
 Qed.
 
 Definition mutate_call : call :=
@@ -396,3 +406,86 @@ Lemma bundled_boot :
   (exists fs, o_result (boot_alone bundled_call) = Ok fs) /\
   nth (384 + 10) (reassemble (o_datagrams (boot_alone bundled_call))) 0 = 5.
 Proof. vm_compute. repeat split. eexists. reflexivity. Qed.
+
+(* ------------------------------------------------------------------ the same clauses for a boot anywhere in a history *)
+Lemma boot_after_sequence earlier c fs :
+  bytes_ok (c_image c) -> len (c_image c) mod 4 = 0 ->
+  o_result (boot_after earlier c) = Ok fs ->
+  exists payloads,
+    boot_sequence (o_datagrams (boot_after earlier c)) payloads /\
+    o_dest (boot_after earlier c) = Some (c_host c, port_of c).
+Proof.
+  rewrite boot_history_independent. intros Hok Hm Hr.
+  destruct (boot_alone_sends c fs Hok Hm Hr) as (packed & payloads & _ & _ & Hseq & _ & _ & Hdest).
+  exists payloads. split; assumption.
+Qed.
+
+Lemma boot_after_reassembles earlier c fs :
+  bytes_ok (c_image c) -> len (c_image c) mod 4 = 0 ->
+  opt_dict_ok (c_overrides c) -> dict_ok (c_kwargs c) ->
+  o_result (boot_after earlier c) = Ok fs ->
+  exists packed,
+    pack_struct (mksdef (s_size (c_sv c)) (described_fields c)) = Ok packed /\ 128 <= len packed /\
+    reassemble (o_datagrams (boot_after earlier c)) = expected_image (c_image c) packed.
+Proof.
+  rewrite boot_history_independent. intros Hok Hm Ho Hk Hr.
+  destruct (boot_alone_sends c fs Hok Hm Hr) as (packed & payloads & H3 & Hp & _ & _ & Hre & _).
+  rewrite (boot_alone_describes c fs Ho Hk Hr) in H3.
+  exists packed. repeat split; assumption.
+Qed.
+
+Lemma boot_after_bytes earlier c fs :
+  bytes_ok (c_image c) -> len (c_image c) mod 4 = 0 -> 512 <= len (c_image c) ->
+  opt_dict_ok (c_overrides c) -> dict_ok (c_kwargs c) -> sv_wf (c_sv c) = true ->
+  o_result (boot_after earlier c) = Ok fs ->
+  let r := reassemble (o_datagrams (boot_after earlier c)) in
+  len r = len (c_image c) /\
+  (forall i, (i < 384 \/ 512 <= i)%nat -> nth i r 0 = nth i (c_image c) 0) /\
+  (forall f, In f (s_fields (c_sv c)) ->
+     exists sg w, pack_kind (f_pack f) = Some (sg, w) /\
+       (f_offset f + Z.of_nat w <= 128 ->
+        forall j, (j < w)%nat ->
+          nth (384 + Z.to_nat (f_offset f) + j) r 0
+          = nth j (le_bytes w (option_value c (f_name f) (f_default f))) 0)) /\
+  (forall i, (i < 128)%nat -> (forall f, In f (s_fields (c_sv c)) -> ~ covers f i) -> nth (384 + i) r 0 = 0).
+Proof. rewrite boot_history_independent. apply boot_alone_bytes. Qed.
+
+Lemma boot_after_describes earlier c fs :
+  opt_dict_ok (c_overrides c) -> dict_ok (c_kwargs c) ->
+  o_result (boot_after earlier c) = Ok fs ->
+  fs = described_fields c /\ o_caller_dict (boot_after earlier c) = c_overrides c.
+Proof.
+  intros Ho Hk Hr. split.
+  - rewrite boot_history_independent in Hr. apply boot_alone_describes; assumption.
+  - unfold boot_after. apply boot_keeps_callers_dict.
+Qed.
+
+Lemma boot_after_total earlier c : call_in_domain c -> exists fs, o_result (boot_after earlier c) = Ok fs.
+Proof. rewrite boot_history_independent. apply boot_alone_total. Qed.
+
+Lemma boot_after_unknown_option earlier c :
+  (exists kv, In kv (call_options c) /\ has_field (fst kv) (s_fields (c_sv c)) = false) ->
+  o_result (boot_after earlier c) = OtherError /\ o_datagrams (boot_after earlier c) = [] /\
+  o_dest (boot_after earlier c) = None.
+Proof. rewrite boot_history_independent. apply boot_alone_unknown_option. Qed.
+
+Lemma boot_after_too_large earlier c fs :
+  512 <= len (c_image c) -> 32768 <= len (c_image c) -> o_result (boot_after earlier c) <> Ok fs.
+Proof. rewrite boot_history_independent. apply boot_alone_too_large. Qed.
+
+Lemma boot_after_unaligned earlier c fs :
+  512 <= len (c_image c) -> len (c_image c) mod 4 <> 0 -> o_result (boot_after earlier c) <> Ok fs.
+Proof. rewrite boot_history_independent. apply boot_alone_unaligned. Qed.
+
+Lemma boot_after_terminates earlier c : o_result (boot_after earlier c) <> OutOfFuel.
+Proof. rewrite boot_history_independent. apply boot_alone_terminates. Qed.
+
+Lemma boot_dictionaries_untouched cs c :
+  fst (run boot_step initial_shared cs) = initial_shared /\
+  o_caller_dict (boot_after cs c) = c_overrides c.
+Proof. split; [apply boot_shared_never_changes|unfold boot_after; apply boot_keeps_callers_dict]. Qed.
+
+Lemma presets_name_their_board :
+  map (lookup "hw_ver") [spin1_boot_options; spin2_boot_options; spin3_boot_options; spin4_boot_options;
+                         spin5_boot_options] = [Some 1; Some 2; Some 3; Some 4; Some 5].
+Proof. reflexivity. Qed.
